@@ -1567,6 +1567,16 @@ class GenFunctions(object):
         if node.wrap.fortran is False:
             # The buffer function is intended to be called by Fortran.
             # No Fortran, no need for buffer function.
+            for arg in ast.params:
+                if arg.typemap.base == "vector":
+                    # A std::vector argument can only be passed via
+                    # the buffer function, see below.
+                    node.wrap.c = False
+                    self.config.log.write(
+                        "Skipping {}, unable to create C wrapper "
+                        "for std::vector argument {} without a "
+                        "Fortran wrapper.\n".format(ast.name, arg.name)
+                    )
             return
         if options.F_string_len_trim is False:  # XXX what about vector?
             return
